@@ -73,3 +73,141 @@ FIND_NODES = REG.add(Contract(
     props=("C18",), note="generator as the list of its yields; the fields mol_idx / molname of the specification are not read here"))
 
 CONTRACTS = [FIND_NODES]
+
+
+# ---- AnnotateLigands._connect_ligands_to_molecule: ligands are attached one step from the residue the specification names ----------
+from pyvc.types import TBool, TTuple, TDefaultDict, key_term      # noqa: E402
+HATTR = TRec("nodeattrs", resname=TNode, resid=TInt, build=TBool, backmap=TBool, ligated=TOpt(TTuple(TInt, TNode)))
+HOST = TGraph(HATTR, key=TInt, cls="polyply.src.meta_molecule:MetaMolecule", max_resid=TInt)
+DEF = TTuple(TInt, TInt, SPEC, SPEC)         # (residue of the host, index of the ligand molecule, host specification, ligand specification)
+TOPO = TRec("polyply.src.topology:Topology", molecules=TList(MOL))
+ANN = TRec("polyply.src.annotate_ligands:AnnotateLigands", topology=TOPO, ligand_defs=TDefaultDict(TInt, TList(DEF)))
+c_, d_ = z3.Int("c_"), z3.Int("d_")
+y_ = z3.Int("y_")
+
+
+def hattrs(g, i):
+    nd = g.fields["nodes"]
+    return nd.v.unflat([c[i] for c in nd.comps])
+
+
+def hadj(g, a, b):
+    s = g.fields["adj"]
+    return z3.Select(s.dom, key_term(s.k, (a, b)))
+
+
+def defs_of(self_, mol_idx):
+    ld = self_.fields["ligand_defs"]
+    return ld.v.unflat([c[mol_idx] for c in ld.comps])
+
+
+def lig_of(self_, mol_idx, d):
+    """the ligand molecule and the specification of the d-th definition"""
+    df = slist_get(defs_of(self_, mol_idx), d)
+    return slist_get(self_.fields["topology"].fields["molecules"], df[1]), df
+
+
+def defs_ok(self_, molecule, mol_idx):
+    """every definition names a residue of the host and a ligand molecule of the topology other than the host"""
+    D = defs_of(self_, mol_idx)
+    df = slist_get(D, d_)
+    n = self_.fields["topology"].fields["molecules"].n
+    return z3.ForAll([d_], z3.Implies(z3.And(0 <= d_, d_ < D.n), z3.And(z3.Select(molecule.fields["nodes"].dom, df[0]), 0 <= df[1], df[1] < n, df[1] != mol_idx)))
+
+
+def host_kept(g, g0, cur0):
+    """the residues the host had keep their attributes and bonds among each other; nothing else lies below cur0"""
+    nd, n0 = g.fields["nodes"], g0.fields["nodes"]
+    return z3.And(z3.ForAll([c_], z3.Implies(c_ < cur0, z3.And(z3.Select(nd.dom, c_) == z3.Select(n0.dom, c_),
+                                                                 z3.Implies(z3.Select(n0.dom, c_), HATTR.eq(hattrs(g, c_), hattrs(g0, c_)))))),
+                  z3.ForAll([c_, y_], z3.Implies(z3.And(c_ < cur0, y_ < cur0), hadj(g, c_, y_) == hadj(g0, c_, y_))))
+
+
+def bonds_join_nodes(g):
+    """representation invariant of networkx graphs: a bond joins two nodes of the graph"""
+    nd = g.fields["nodes"]
+    return z3.ForAll([c_, y_], z3.Implies(hadj(g, c_, y_), z3.And(z3.Select(nd.dom, c_), z3.Select(nd.dom, y_))))
+
+
+def nothing_beyond(g, cur):
+    """no node and no bond at or beyond `cur` yet"""
+    return z3.ForAll([c_, y_], z3.Implies(c_ >= cur, z3.And(z3.Not(hadj(g, c_, y_)), z3.Not(hadj(g, y_, c_)))))
+
+
+def attached(g, g0, self_, mol_idx, cur0, cur, own, lign):
+    """the nodes cur0..cur-1 are the attached ligand residues: each stands for one residue of a ligand molecule that its definition
+    selects, carries that residue's name, is marked to be built, remembers where it came from and is bonded to exactly the residue of
+    the host that the definition names (one step from it)"""
+    nd = g.fields["nodes"]
+    D = defs_of(self_, mol_idx)
+    o = own.comps[0][c_]
+    x = lign.comps[0][c_]
+    df = slist_get(D, o)
+    lig = slist_get(self_.fields["topology"].fields["molecules"], df[1])
+    at = hattrs(g, c_)
+    return z3.And(
+        z3.ForAll([c_], z3.Implies(c_ >= cur0, z3.Select(nd.dom, c_) == (c_ < cur))),
+        g.fields["max_resid"] == g0.fields["max_resid"] + (cur - cur0),
+        z3.ForAll([c_], z3.Implies(z3.And(cur0 <= c_, c_ < cur), z3.And(
+            0 <= o, o < D.n, is_node(lig, x), named(lig, df[3], x),
+            at.fields["resname"] == nattrs(lig, x).fields["resname"], at.fields["build"], at.fields["backmap"],
+            at.fields["resid"] == g0.fields["max_resid"] + (c_ - cur0) + 1,
+            z3.Not(at.fields["ligated"].none), at.fields["ligated"].val[0] == df[1], at.fields["ligated"].val[1] == x,
+            z3.ForAll([y_], z3.And(hadj(g, c_, y_) == (y_ == df[0]), hadj(g, y_, c_) == (y_ == df[0])))))))
+
+
+def all_attached(self_, mol_idx, cur0, cur, own, lign, wit, upto, partial=None):
+    """every residue of a ligand molecule that one of the first `upto` definitions selects is attached, once (ghost witness)"""
+    D = defs_of(self_, mol_idx)
+    df = slist_get(D, d_)
+    lig = slist_get(self_.fields["topology"].fields["molecules"], df[1])
+    w = wit.comps[0][key_term(wit.k, (d_, x_))]
+    return z3.ForAll([d_, x_], z3.Implies(z3.And(0 <= d_, d_ < upto, is_node(lig, x_), named(lig, df[3], x_)),
+                                          z3.And(cur0 <= w, w < cur, own.comps[0][w] == d_, lign.comps[0][w] == x_)))
+
+
+def this_def_partial(self_, mol_idx, cur0, cur, own, lign, wit, k, Y, j):
+    """the ligand residues of the current definition visited so far are attached"""
+    w = wit.comps[0][key_term(wit.k, (k, slist_get(Y, i_)))]
+    return z3.ForAll([i_], z3.Implies(z3.And(0 <= i_, i_ < j), z3.And(cur0 <= w, w < cur, own.comps[0][w] == k, lign.comps[0][w] == slist_get(Y, i_))))
+
+
+def hook_attach(eng, env):
+    from pyvc.types import SDict
+    cur, k, x = env["current"], env["k"], env["lig_node"]
+    o, l, w = env["_own"], env["_lign"], env["_wit"]
+    env["_own"] = SDict(o.k, o.v, o.dom, [z3.Store(o.comps[0], cur, k)])
+    env["_lign"] = SDict(l.k, l.v, l.dom, [z3.Store(l.comps[0], cur, x)])
+    env["_wit"] = SDict(w.k, w.v, w.dom, [z3.Store(w.comps[0], key_term(w.k, (k, x)), cur)])
+
+
+CONNECT = REG.add(Contract(
+    "polyply.src.annotate_ligands:AnnotateLigands._connect_ligands_to_molecule", params=dict(self=ANN, molecule=HOST, mol_idx=TInt),
+    requires={"the host has residues": "has_nodes(molecule)",
+              "bonds join nodes of the graph (representation invariant of networkx graphs)": "bonds_join_nodes(molecule)",
+              "every definition for this host names one of its residues and a ligand molecule of the topology other than the host itself":
+              "defs_ok(self, molecule, mol_idx)"},
+    modifies=["molecule"],
+    ensures={"the host's own residues, their attributes and the bonds among them are unchanged": "host_kept(molecule, old(molecule), cur0)",
+             "every added residue is a ligand residue selected by its definition, named after it, to be built, tagged with its origin, and bonded to "
+             "exactly the host residue the definition names": "attached(molecule, old(molecule), self, mol_idx, cur0, current, _own, _lign)",
+             "every selected ligand residue of every definition is attached": "all_attached(self, mol_idx, cur0, current, _own, _lign, _wit, len(self.ligand_defs[mol_idx]))"},
+    exposes={"cur0": TInt, "current": TInt, "_own": TDict(TInt, TInt), "_lign": TDict(TInt, TNode), "_wit": TDict(TTuple(TInt, TNode), TInt)},
+    ghost_locals={"_own": TDict(TInt, TInt), "_lign": TDict(TInt, TNode), "_wit": TDict(TTuple(TInt, TNode), TInt), "cur0": TInt},
+    ghost={"after:current = max(molecule.nodes) + 1": lambda eng, env: env.__setitem__("cur0", env["current"]),
+           'after:molecule.nodes[current]["ligated"] = (lig_idx, lig_node)': hook_attach},
+    loops={0: Loop({"host": "host_kept(molecule, old(molecule), cur0) and cur0 <= current and nothing_beyond(molecule, current)",
+                    "attached so far": "attached(molecule, old(molecule), self, mol_idx, cur0, current, _own, _lign)",
+                    "complete so far": "all_attached(self, mol_idx, cur0, current, _own, _lign, _wit, k)"},
+                   modifies=["_own", "_lign", "_wit"]),
+           1: Loop({"host": "host_kept(molecule, old(molecule), cur0) and cur0 <= current and nothing_beyond(molecule, current)",
+                    "attached so far": "attached(molecule, old(molecule), self, mol_idx, cur0, current, _own, _lign)",
+                    "complete so far": "all_attached(self, mol_idx, cur0, current, _own, _lign, _wit, k)",
+                    "this definition": "0 <= k and k < len(self.ligand_defs[mol_idx]) and this_def_partial(self, mol_idx, cur0, current, _own, _lign, _wit, k, _seq1, j)"},
+                   modifies=["_own", "_lign", "_wit"], index="j")},
+    spec_fns=dict(defs_ok=defs_ok, bonds_join_nodes=bonds_join_nodes, nothing_beyond=nothing_beyond, host_kept=host_kept, attached=attached, all_attached=all_attached, this_def_partial=this_def_partial,
+                  has_nodes=lambda g: z3.Exists([c_], z3.Select(g.fields["nodes"].dom, c_))),
+    inline_callees=("polyply.src.meta_molecule:MetaMolecule.add_monomer", "polyply.src.meta_molecule:MetaMolecule.add_node"),
+    props=("C18",),
+    note="_find_nodes is used through its proved contract; add_monomer / add_node executed at the call site; the ligand molecules are other "
+         "elements of topology.molecules than the host (precondition)"))
